@@ -83,4 +83,10 @@ var Map zconst.LangMap = map[zconst.ZogType]map[zconst.ZogIssueCode]string{
 		zconst.IssueCodeZHTTPInvalidForm:  "invalid form data",
 		zconst.IssueCodeZHTTPInvalidQuery: "invalid query params",
 	},
+	// schemas built with z.CustomFunc report the type "custom"
+	"custom": {
+		zconst.IssueCodeRequired: "is required",
+		zconst.IssueCodeNotNil:   "must not be empty",
+		zconst.IssueCodeFallback: "value is invalid",
+	},
 }
